@@ -1,3 +1,4 @@
 CONSTANTS MaxOps = 5 MaxGroups = 4 MaxRoutes = 2
+RandomPrograms = 5000
 INIT GenInit
 NEXT GenNext
